@@ -38,6 +38,7 @@ type elObj struct {
 	failedStop        bool // a StopWithContext of this object returned an error (no OnDemote promised)
 	healthTick        int
 	lastAckRev        uint64
+	termRiseStep      uint64 // driver step of the latest rising edge
 	inDemote          int
 	termToken         string
 	lateAck           bool
@@ -181,6 +182,7 @@ func (m *obsMetrics) SetIsLeader(v float64, _ prometheus.Labels) {
 		}
 		if val {
 			o.termToken = tok
+			o.termRiseStep = d.step
 			o.terms++
 			d.stats.Terms++
 			if !o.in.running {
